@@ -106,6 +106,7 @@ pub fn probe_same_roots(c: &Case) -> Case {
         match b {
           Build::TopDown(t) => roots.push(*t),
           Build::BottomUp { then, .. } => roots.extend(then.iter().cloned()),
+          Build::Change { .. } => {}
         }
       }
       if !roots.is_empty() { steps.push(Step::Probe { roots }); }
@@ -282,14 +283,26 @@ pub fn bu_cfg(t: Tier) -> GenCfg {
 }
 
 /// Failures in probe/then builds that follow a bottom-up build; attributed to C03-F1 by the model-only signature.
-fn c03_judge(case: &Case, run: &Run, an: &Analysis, stats: &mut Stats) -> CheckResult {
+fn c03_judge(case: &Case, run: &Run, an: &Analysis, stats: &mut Stats) -> CheckResult { c03_judge_inner(case, run, an, stats, true) }
+
+/// Long sessions (external changes while a session is open, reported to a bottom-up build of the same session): only the
+/// property's own demand is made - afterwards every known task is up to date and returns from-scratch results. The
+/// event-level acceptor is not consulted: the per-session memo of validated tasks makes pie execute a task twice in such
+/// builds, which C04 (whose histories have no such changes) does not speak about.
+fn c03_judge_long(case: &Case, run: &Run, an: &Analysis, stats: &mut Stats) -> CheckResult {
+  let long = case.hist.steps.iter().any(|s| matches!(s, Step::Session { builds } if builds.iter().any(|b| matches!(b, Build::Change { .. }))));
+  if long { stats.class("case_with_changes_while_a_session_is_open"); }
+  c03_judge_inner(case, run, an, stats, !long)
+}
+
+fn c03_judge_inner(case: &Case, run: &Run, an: &Analysis, stats: &mut Stats, strict_acceptor: bool) -> CheckResult {
   let _ = case;
   let mut nontrivial = false;
   for b in &an.builds {
     if matches!(b.kind, BuildKind::BottomUp(_)) && b.executed.len() >= 2 && (b.facts.bu_cutoff || b.facts.dropped_require || b.facts.added_require || b.facts.bu_nested_drain || b.facts.bu_first_required) { nontrivial = true; }
   }
   if nontrivial { stats.nontrivial(fingerprint(case)); sample(case, stats); }
-  fail_on(an, &["panic-internal", "bu-leftover", "bu-missing-schedule", "bu-missed-check", "bu-undrained", "missing-exec"])?;
+  if strict_acceptor { fail_on(an, &["panic-internal", "bu-leftover", "bu-missing-schedule", "bu-missed-check", "bu-undrained", "missing-exec"])?; } else { fail_on(an, &["panic-internal"])?; }
   // Which bottom-up session does a judged build belong to?
   let mut last_bu: Option<usize> = None;
   for (si, sess) in run.sessions.iter().enumerate() {
@@ -299,13 +312,14 @@ fn c03_judge(case: &Case, run: &Run, an: &Analysis, stats: &mut Stats) -> CheckR
     if !judged { continue; }
     let bu = last_bu.unwrap();
     let stale: Vec<(TaskId, DepTarget)> = an.stale_before_bu.get(&bu).cloned().unwrap_or_default();
-    let bu_exec = an.bu_executed.get(&bu).cloned().unwrap_or_default();
-    let stale_tasks: BTreeSet<TaskId> = stale.iter().map(|x| x.0).filter(|t| !bu_exec.contains(t)).collect();
     // Within the bottom-up session itself only builds after its first bottom-up build are judged.
     let first_bu = an.builds.iter().filter(|b| b.session == si).position(|b| matches!(b.kind, BuildKind::BottomUp(_)));
     for (k, b) in an.builds.iter().filter(|b| b.session == si).enumerate() {
       if matches!(b.kind, BuildKind::BottomUp(_)) { continue; }
       if let Some(f) = first_bu { if k < f { continue; } }
+      // Tasks executed by the bottom-up builds of that session that precede the judged build.
+      let bu_exec: BTreeSet<TaskId> = an.bu_exec_builds.iter().filter(|(s, bi, _)| *s == bu && (si != bu || *bi < b.build)).flat_map(|(_, _, t)| t.iter().cloned()).collect();
+      let stale_tasks: BTreeSet<TaskId> = stale.iter().map(|x| x.0).filter(|t| !bu_exec.contains(t)).collect();
       let executed_known: Vec<TaskId> = b.executed.iter().cloned().filter(|t| b.completed_before.contains(t)).collect();
       let mismatch = an.findings.iter().find(|f| f.session == si && f.build == b.build && (f.tag == "c01-output" || f.tag == "c01-state"));
       if executed_known.is_empty() && mismatch.is_none() { continue; }
@@ -330,17 +344,28 @@ fn c03_judge(case: &Case, run: &Run, an: &Analysis, stats: &mut Stats) -> CheckR
 pub const C03: Spec = Spec {
   prop: "C03",
   level: "exploration",
-  rule: "generated static-role programs x histories in which every batch of external changes (sources and generated resources) is reported completely to a bottom-up build, with top-down sessions and same-session requires interleaved; after each bottom-up session a probe session requires every task: no task that had completed before may execute and outputs/resources must equal the from-scratch evaluator; the acceptor additionally demands that every recorded reader/writer of a reported or rewritten resource and every recorded requirer of an executed task is checked, that every inconsistent check schedules, and that nothing stays scheduled; non-trivial = bottom-up build executing >=2 tasks with a cut-off, a changed require set, a nested drain or a first-time require; distinct by case hash",
+  rule: "generated static-role programs x histories in which every batch of external changes (sources and generated resources) is reported completely to a bottom-up build, with top-down sessions and same-session requires interleaved; after each bottom-up session a probe session requires every task: no task that had completed before may execute and outputs/resources must equal the from-scratch evaluator; the acceptor additionally demands that every recorded reader/writer of a reported or rewritten resource and every recorded requirer of an executed task is checked, that every inconsistent check schedules, and that nothing stays scheduled; a second search (label long-session) keeps a session open across several rounds of external changes, each reported completely to a bottom-up build of that same session, and makes only the property's own demand (afterwards nothing known executes, results equal from-scratch); non-trivial = bottom-up build executing >=2 tasks with a cut-off, a changed require set, a nested drain or a first-time require; distinct by case hash",
   cfg: bu_cfg,
   transform: probe_all_after_bottom_up,
   judge: c03_judge,
   opts: Opts::default,
   quick: (16, 15000),
   thorough: (16, 250000),
-  extra: None,
+  extra: Some(c03_extra),
   strategy: None,
   assumptions: &["complete report = every resource changed externally since the last complete bottom-up build (tracked by the history builder)", "C03-F1 (task left stale by a partial top-down build) is attributed by a model-only signature"],
 };
+
+fn c03_long_cfg(t: Tier) -> GenCfg { let mut c = bu_cfg(t); c.mid_session_changes = true; c.bottom_up_weight = 6; c }
+const C03_LONG: Spec = Spec { judge: c03_judge_long, cfg: c03_long_cfg, extra: None, ..C03 };
+
+fn c03_extra(_spec: &Spec, tier: Tier, seed: u64, known: &Known, report: &mut Report) {
+  let (shards, cases) = match tier { Tier::Quick => (16, 8000), Tier::Thorough => (16, 120000) };
+  let cfg = c03_long_cfg(tier);
+  let scfg = SearchCfg { prop: "C03", label: "long-session", seed, shards, cases_per_shard: cases, max_shrink_iters: 3000 };
+  let (stats, found) = driver::search(&scfg, known, || spec_strategy(&C03_LONG, cfg.clone()), |c, s| check(&C03_LONG, c, s), |c| pretty_case(c));
+  report.absorb("long-session", stats, found);
+}
 
 // ---------------------------------------------------------------------------------------------------------------------
 // C04
@@ -1052,6 +1077,7 @@ pub fn replay(prop: &str, _label: &str, path: &Path) -> Result<CheckResult, Stri
   if prop == "C06" && _label == "after-aborts" { return Ok(super::inject::replay_c06_after_aborts(&case)); }
   if prop == "C20" && _label == "after-aborts" { return Ok(driver::guarded(|| super::roles::check_after_aborts(&case, &mut Stats::dummy()))); }
   if prop == "C20" && _label == "guarded" { return Ok(driver::guarded(|| super::diag::check(&case, super::diag::Mode::C20, &mut Stats::dummy()))); }
+  if prop == "C03" && _label == "long-session" { return Ok(driver::guarded(|| check(&C03_LONG, &case, &mut Stats::dummy()))); }
   if prop == "C08" && _label == "diag" { return Ok(driver::guarded(|| c08_diag_check(&case, &mut Stats::dummy()))); }
   if prop == "C19" && _label == "diag" { return Ok(driver::guarded(|| super::diag::check(&case, super::diag::Mode::C19, &mut Stats::dummy()))); }
   Ok(driver::guarded(|| check(spec, &case, &mut Stats::dummy())))
